@@ -24,7 +24,8 @@ func writeEvidence(p *Prop, tier string, verifSeed uint64, a *agg, start time.Ti
 		"runs_per_hour":       int(float64(a.runs) / (wall + 1e-9) * 3600),
 		"seeds":               map[string]any{"verif_seed": verifSeed, "first_run_seed": a.firstSeed, "last_run_seed": a.lastSeed},
 		"sim_steps":           a.steps,
-		"simulated_time":      "no checked property depends on time; simulated time is counted in steps (sim_steps). Bubble clocks never advance (0 s).",
+		"simulated_time":      "no checked property depends on time; simulated time is counted in steps (sim_steps). The only clock inside a bubble is the bubble's; it advances only where a harness lets it (C17: while an observer callback is blocked), reported as simulated_seconds.",
+		"simulated_seconds":   a.probes["simulated-seconds"],
 		"faults_fired":        a.faults,
 		"probes":              a.probes,
 		"distinct_event_logs": len(a.traces),
